@@ -2,3 +2,4 @@ pub mod dump;
 pub mod engine;
 pub mod gen;
 pub mod props;
+pub mod pyworker;
